@@ -111,6 +111,7 @@ type Cluster struct {
 	line   int
 	stats  map[string]int
 	panics []string
+	panicsLogged int
 }
 
 func genesis(opt Options) pb.ConfState {
@@ -504,6 +505,10 @@ type Line struct {
 
 func (c *Cluster) emit(e Event, ok bool) {
 	c.line++
+	if len(c.panics) > c.panicsLogged {
+		e.Note = "PANIC " + c.panics[len(c.panics)-1]
+		c.panicsLogged = len(c.panics)
+	}
 	ln := Line{L: c.line, Ev: e.Ev, Node: e.Node, Arg: e, OK: ok}
 	for _, n := range c.nodes {
 		ln.N = append(ln.N, c.project(n))
